@@ -110,6 +110,11 @@ def probe_source(probes, with_attrs):
                     m_attr = "        #[diplomat::attr(%s, disable)]\n" % parts[0]
             else:
                 m_attr = "".join("        #[diplomat::attr(%s, rename = \"zzrn%dm\")]\n" % (c_, k) for c_ in parts)
+        # the other spellings the attribute parser documents: a quoted feature name, the call form of rename
+        if k % 3 == 1:
+            t_attr, i_attr, m_attr, mod_attr = [re.sub(r"supports = (\w+)", r'supports = "\1"', a) for a in (t_attr, i_attr, m_attr, mod_attr)]
+        if k % 4 == 2:
+            t_attr, i_attr, m_attr, mod_attr = [re.sub(r'rename = ("[^"]*")', r"rename(\1)", a) for a in (t_attr, i_attr, m_attr, mod_attr)]
         tk = TYPE_KINDS[k % len(TYPE_KINDS)]
         if tk == "opaque":
             decl = "    #[diplomat::opaque]\n    pub struct %s(pub u8);\n" % ty
